@@ -126,9 +126,15 @@ def _match_anchors(fns, wants):
 
 
 def report(repo, verif, prop_id):
-    """summary dict for the evidence file"""
+    """summary dict for the evidence file; the raw hit list goes to .srccov/<id>.json (not committed) for tools/srccov_union.py"""
     if not _hits and not _active:
         return {'measured': False}
+    try:
+        os.makedirs(os.path.join(verif, '.srccov'), exist_ok=True)
+        with open(os.path.join(verif, '.srccov', prop_id + '.json'), 'w') as fh:
+            json.dump(sorted(_hits), fh)
+    except OSError:
+        pass
     base = os.path.join(repo, 'AdvancedHTMLParser')
     hit_by_file = {}
     for f, l in _hits:
